@@ -23,7 +23,7 @@ from ..core import Clause, Violation, close
 from . import _graph as G
 from . import _img as I
 
-RULE = ("A history = a pool of inputs (2..4 diagrams held as float64 array, float32 array, integer array (int64, int16 or uint8) or nested list; one diagram with infinite deaths held as float64 or float32 array; 2 graphs as dense / sparse / nested-list "
+RULE = ("A history = a pool of inputs (2..4 diagrams held as float64 array (C-contiguous, Fortran-ordered, a non-contiguous view, or read-only), float32 array, integer array (int64, int16 or uint8) or nested list; one diagram with infinite deaths held as float64 or float32 array; 2 graphs as dense / sparse / nested-list "
         "adjacency) + a generated list of calls to the public entry points (distances with and without matchings, heat, sliced Wasserstein, entropy, "
         "mGH pair and collection, both imagers incl. plots, exact / grid landscapes and their arithmetic, norms, tools, transformer, diagram / "
         "matching / landscape plots, kernels and weights). Every pooled input is snapshotted at creation (dtype, shape, bytes; deep copy for lists; "
@@ -38,7 +38,7 @@ ASSUMPTIONS = [
     "diagrams have integer coordinates (so that an integer-array form with equal values exists) and strictly positive persistence",
 ]
 
-FORMS = ["float", "int", "list", "float32", "uint8", "int16"]
+FORMS = ["float", "int", "list", "float32", "uint8", "int16", "fortran", "strided", "readonly"]
 
 
 def as_form(pts, form):
@@ -50,6 +50,17 @@ def as_form(pts, form):
         return np.array(pts, dtype=np.float32)
     if form in ("uint8", "int16"):
         return np.array(pts, dtype=getattr(np, form))
+    if form == "fortran":        # float64, column-major memory layout (e.g. np.array([births, deaths]).T)
+        return np.asfortranarray(np.array(pts, dtype=float))
+    if form == "strided":        # float64, a non-contiguous view into a larger array (every second row, two inner columns)
+        big = np.full((2 * len(pts) + 1, 4), 99.0)
+        view = big[1::2, 1:3]
+        view[:] = np.array(pts, dtype=float)
+        return view
+    if form == "readonly":       # float64, not writeable (e.g. an array loaded with mmap_mode="r" or handed over by joblib)
+        a = np.array(pts, dtype=float)
+        a.setflags(write=False)
+        return a
     return [[int(b), int(d)] for b, d in pts]
 
 
@@ -332,8 +343,8 @@ INF_ENTRIES = {"entropy_inf": i_entropy, "plot_diagrams_inf": i_plot, "bottlenec
 INF_OPTS = st.fixed_dictionaries({"keep": st.booleans(), "val": st.sampled_from([50.0, 20.0]), "normalize": st.booleans(), "lifetime": st.booleans(),
                                   "twice": st.booleans(), "num_steps": st.sampled_from([10, 25])})
 
-ALL3 = ("float", "int", "list", "float32", "uint8", "int16")
-ARR2 = ("float", "int", "float32", "uint8", "int16")
+ALL3 = ("float", "int", "list", "float32", "uint8", "int16", "fortran", "strided", "readonly")
+ARR2 = ("float", "int", "float32", "uint8", "int16", "fortran", "strided", "readonly")
 ENTRIES = {
     "bottleneck": (e_bottleneck, ALL3), "wasserstein": (e_wasserstein, ALL3), "heat": (e_heat, ALL3), "sliced_wasserstein": (e_sliced, ARR2),
     "persistent_entropy": (e_entropy, ARR2), "imager_transform": (e_imager_transform, ALL3), "imager_fit_transform": (e_imager_fit_transform, ARR2),
